@@ -77,11 +77,23 @@ def gen_cases(ctx):
     return cases
 
 
-def value_of(shape, name=None):
+def value_of(shape, name=None, df=None):
     if shape == "scalar":
         # a string longer than NumPy's inline small-string size for two of the names
         return "long string scalar 0123456789" if name in ("w", "y") else 7
     if shape == "nd":
+        # not one-dimensional.  For names "x" / "z" and a frame with rows: a two-dimensional *view of a
+        # column* with as many elements as the frame has rows (reshape / [:, None] keep the column class),
+        # the one value for which only the dimension check stands between it and the dict
+        if df is not None and name in ("x", "z"):
+            try:
+                n = int(df.nrow)
+            except Exception:
+                n = 0
+            if n >= 1:
+                import dataiter as di
+                col = di.DataFrameColumn(np.arange(n))
+                return col[:, None] if name == "x" else col.reshape(1, n)
         return np.zeros((2, 3))
     return list(range(shape))
 
@@ -188,9 +200,9 @@ def impl(case):
         try:
             k = st["k"]
             if k == "setitem":
-                df[st["name"]] = value_of(st["v"], st["name"])
+                df[st["name"]] = value_of(st["v"], st["name"], df)
             elif k == "setattr":
-                setattr(df, st["name"], value_of(st["v"], st["name"]))
+                setattr(df, st["name"], value_of(st["v"], st["name"], df))
             elif k == "delitem":
                 del df[st["name"]]
             elif k == "delattr":
